@@ -144,3 +144,18 @@ M("loc-base-lowercases-path", "normalizer.go", "	u.Path = path.Clean(u.Path)\n	i
 M("loc-base-no-abspath", "normalizer.go", "	u.Path = absPath(u.Path) // platform-dependent", "	u.Path = \"/\" + u.Path", ["C11"])
 M("loc-n1-revert", "normalizer.go", "				u.RawQuery = \"\" // any query component is irrelevant for a local file\n", "", ["C11"])
 M("loc-options-base-written-back", "expander.go", "	options = optionsOrDefault(options)\n	resolver := defaultSchemaLoader(spec, options, nil, nil)", "	if options != nil && options.RelativeBase != \"\" {\n		options.RelativeBase = normalizeBase(options.RelativeBase)\n	}\n	options = optionsOrDefault(options)\n	resolver := defaultSchemaLoader(spec, options, nil, nil)", ["C11"])
+M("state-context-circulars-global", "schema_loader.go", "		circulars: make(map[string]bool),", "		circulars: globalCirculars,", ["C16"])
+
+# ---- C17 concurrency ----------------------------------------------------------
+M("race-cache-get-unlocked", "cache.go", "	s.lock.RLock()\n	v, ok := s.store[uri]\n\n	s.lock.RUnlock()", "	v, ok := s.store[uri]\n", ["C17"])
+M("race-once-replaced-by-nil-check", "cache.go", "	onceCache.Do(initResolutionCache)\n", "	if resCache == nil {\n		initResolutionCache()\n	}\n", ["C17"])
+M("race-debuglog-counter", "debug.go", "func debugLog(msg string, args ...interface{}) {", "var debugCalls int\n\nfunc debugLog(msg string, args ...interface{}) {\n	debugCalls++", ["C17"])
+M("race-default-cache-shared", "cache.go", "	return resCache.ShallowClone()", "	return resCache", ["C17"])
+M("race-shallowclone-unlocked-shares", "cache.go", "	return &simpleCache{\n		store: store,\n	}", "	_ = store\n	return &simpleCache{\n		store: s.store,\n	}", ["C17"])
+
+# ---- C19 validity ---------------------------------------------------------------
+M("valid-response-description-omitted", "response.go", "	if r.Ref.String() == \"\" {\n		// when there is no $ref", "	if r.Ref.String() == \"\" && r.Description != \"\" {\n		// when there is no $ref", ["C19", "C01"])
+M("valid-paths-omitempty", "swagger.go", '`json:"paths"`', '`json:"paths,omitempty"`', ["C19", "C01"])
+M("valid-ref-left-next-to-content", "expander.go", "	pathItem.Ref = Ref{}\n	for i := range pathItem.Parameters {", "	for i := range pathItem.Parameters {", ["C19", "C03"])
+M("valid-param-ref-kept", "expander.go", "	// $ref expansion or rebasing is performed by expandSchema below\n	if ref != nil {\n		*ref = Ref{}\n	}", "	// $ref expansion or rebasing is performed by expandSchema below", ["C19", "C03"])
+M("valid-security-null-scopes", "swagger.go", "func (s SwaggerProps) MarshalJSON() ([]byte, error) {", "func (s SwaggerProps) MarshalJSON() ([]byte, error) {\n	for _, req := range s.Security {\n		for k, v := range req {\n			if len(v) == 0 {\n				req[k] = nil\n			}\n		}\n	}", ["C19", "C01"])
